@@ -238,10 +238,27 @@ def r2_promise_discipline(ctx):
     for nd in g.nodes:
         if nd.kind == "stmt" and isinstance(nd.ast, ast.Return) and nd.ast.value is not None and any(P.is_self_attr(x) and x.attr in fields - {flag} for x in ast.walk(nd.ast.value)):
             def waited(a, b, lab, flag=flag):
-                if a.kind != "test" or lab is not True:
+                if a.kind != "test":
                     return False
-                t = P.un(a.ast)
-                return "wait_for(" in t and flag in t or t == f"self.{flag}"
+                e = a.ast
+                want = True
+                while isinstance(e, ast.UnaryOp) and isinstance(e.op, ast.Not):  # `if not <waited>: return timeout_val`
+                    e, want = e.operand, not want
+                if lab is not want:
+                    return False
+                t = P.un(e)
+                if t == f"self.{flag}":
+                    return True
+                if isinstance(e, ast.Call) and P.un(e.func).endswith(".wait_for") and e.args:
+                    pred = e.args[0]
+                    if isinstance(pred, ast.Lambda):
+                        return P.un(pred.body) == f"self.{flag}"
+                    if isinstance(pred, ast.Attribute) and P.is_self_attr(pred):
+                        # a method of the class that answers the flag
+                        hm = P.methods(cls).get(pred.attr)
+                        rets_h = [P.un(r.value) for r in ast.walk(hm) if isinstance(r, ast.Return) and r.value is not None] if hm is not None else []
+                        return rets_h == [f"self.{flag}"]
+                return False
 
             ok = g.edge_dominated(nd, waited)
             ctx.ob("C13.R2", f"{PROMISE}::Promise.deref::value-only-after-delivery::{P.un(nd.ast)}", PROMISE, nd.line, ok,
